@@ -296,7 +296,7 @@ class C09(AsmPlan):
     check_meta = False
     tie_name = 'canonical load files: gmars ParseLoadFile and CompileWarrior vs the extracted Load / assembler models'
     rule = ('warriors of 1..8 instructions, every instruction form legal in the dialect, fields across [0,M) incl. M/2 and M/2+1 printed signed or unsigned, every entry point; '
-            'printed by the extracted canonical printer under layout perturbations (letter case, blanks / tabs, CR-LF, comment / blank / metadata lines, missing final newline); '
+            'printed by the extracted canonical printer under layout perturbations (letter case, blanks / tabs, CR-LF, comment / blank / metadata lines, missing final newline) and in the plain canonical layout; '
             'read back by the load-file reader and by the assembler; non-trivial = both readers accept')
 
     def gens(self, tier):
@@ -305,15 +305,17 @@ class C09(AsmPlan):
 
     def concrete(self, ints, spec):
         cfg = ints[1:9]
-        r = find(spec, 60)
-        if r is None:
-            return []
-        return [' '.join(str(x) for x in [11] + cfg + r[1:]), ' '.join(str(x) for x in [10] + cfg + r[1:])]
+        out = []
+        for tag in (60, 61):      # 60: the layout under the style; 61: the canonical layout itself
+            r = find(spec, tag)
+            if r is not None:
+                out += [' '.join(str(x) for x in [11] + cfg + r[1:]), ' '.join(str(x) for x in [10] + cfg + r[1:])]
+        return out
 
     def judge(self, ints, spec, idx, conc, impl):
-        why = AsmPlan.judge(self, ints, spec, idx, conc, impl)
+        why = AsmPlan.judge(self, ints, spec, 1, conc, impl)
         if why:
-            return ('load-file-reader: ' if idx == 0 else 'assembler: ') + why
+            return ('load-file-reader: ' if idx % 2 == 0 else 'assembler: ') + ('(canonical layout) ' if idx >= 2 else '') + why
         return None
 
     def shrink(self, ints):
